@@ -111,9 +111,12 @@ def build_cpp(src, flags=None, tag="san", extra_deps=()):
         # drop stale binaries of the same harness/tag
         base = os.path.basename(out).rsplit(".", 1)[0]
         for fn in os.listdir(BUILD):
-            if fn.startswith(base + ".") and os.path.join(BUILD, fn) != out and ".tmp" not in fn and not fn.endswith(".lock"):
+            fp = os.path.join(BUILD, fn)
+            # another run (different QENTEM_REPO) may be about to execute its own binary: drop only old ones
+            if fn.startswith(base + ".") and fp != out and ".tmp" not in fn and not fn.endswith(".lock") \
+                    and time.time() - os.path.getmtime(fp) > 7200:
                 try:
-                    os.remove(os.path.join(BUILD, fn))
+                    os.remove(fp)
                 except OSError:
                     pass
     return out, ""
